@@ -10,6 +10,7 @@ import (
 	"sort"
 	"strings"
 	"testing"
+	"time"
 
 	"verif/lib/ev"
 	"verif/lib/iamflow"
@@ -36,6 +37,8 @@ func TestCheck(t *testing.T) {
 		consumers = append(consumers, c)
 		return c
 	}
+	didHost, restoreTransport := iamflow.InstallDIDHost() // hosted did:web parties for the DID-text-prefix cases (before any node starts)
+	defer restoreTransport()
 	vw := newVCRWorld(t)
 	vcNode := must(vw.vcJWTNodeIssued())
 	must(vw.vcJWTHarnessIssued(vcNode.seed.compact))
@@ -155,6 +158,50 @@ func TestCheck(t *testing.T) {
 			}
 		}
 	}
+	// kid of ANOTHER party whose DID text merely starts with the claimed issuer's DID (did:web sub-path and text-extension DIDs):
+	// credential JWTs presented to the verifier API of the node, all parties hosted by the harness
+	{
+		rootID := didHost.Identity("did:web:c17.example")
+		sub := didHost.Identity("did:web:c17.example:users:mallory")
+		ext := didHost.Identity("did:web:c17.example:users:mallory2")
+		holder := iamflow.NewHolder()
+		mk := func(iss string, signer *iamflow.Holder) string {
+			claims := map[string]any{"iss": iss, "sub": holder.DID, "nbf": time.Now().Add(-time.Minute).Unix(), "jti": iss + "#c17-" + signer.DID[len(signer.DID)-4:],
+				"vc": map[string]any{"@context": []string{"https://www.w3.org/2018/credentials/v1", "https://nuts.nl/credentials/v1"},
+					"type":              []string{"VerifiableCredential", "NutsOrganizationCredential"},
+					"credentialSubject": map[string]any{"id": holder.DID, "organization": map[string]any{"name": "C17", "city": "C17"}}}}
+			return signer.SignJWT(map[string]any{"alg": "ES256", "typ": "JWT", "kid": signer.KID}, claims)
+		}
+		for _, c := range []struct {
+			name    string
+			iss     string
+			signer  *iamflow.Holder
+			hostile bool
+		}{
+			{"control/root", rootID.DID, rootID, false},
+			{"control/sub-path", sub.DID, sub, false},
+			{"kid-of-sub-path-did-of-issuer", rootID.DID, sub, true},
+			{"kid-of-did-extending-issuer-text", sub.DID, ext, true},
+			{"kid-of-parent-did", sub.DID, rootID, true},
+		} {
+			o, err := vw.verifyVC(mk(c.iss, c.signer))
+			if err != nil {
+				r.Fatalf("hosted did:web case %s: %v", c.name, err)
+			}
+			r.Case("credential-jwt#hosted-didweb/kid-other-party/"+c.name, c.hostile)
+			r.Distinct("consumer_class_pairs", "credential-jwt/kid-other-party-did-text-prefix")
+			r.Count("variants_presented", 1)
+			if !c.hostile && !o.accepted {
+				r.Fatalf("credential of a hosted did:web issuer is rejected (%s), the harness would be blind: %s", c.name, o.detail)
+			}
+			if c.hostile && o.accepted {
+				r.Violation("C17/credential-jwt/kid-other-party", "credential JWT claiming issuer "+c.iss+" accepted with the key of another party ("+c.name+", kid "+c.signer.KID+")",
+					map[string]any{"case": c.name, "iss": c.iss, "kid": c.signer.KID, "answer": o.detail})
+			}
+		}
+		r.Extra("hosted_did_documents_served", didHost.Served())
+	}
+
 	// evidence: per consumer and per (consumer, class)
 	per := map[string]any{}
 	for name, rw := range table {
